@@ -19,6 +19,7 @@ from pycel.lib.function_helpers import (
 
 
 _SIZE_MASK = {2: 512, 8: 0x20000000, 16: 0x8000000000}
+_BASE_DIGITS = {2: '01', 8: '01234567', 16: '0123456789abcdefABCDEF'}
 _BASE_TO_FUNC = {2: bin, 8: oct, 16: hex}
 
 
@@ -38,6 +39,9 @@ def _base2dec(value, base):
             value = str(int(value))
 
     if isinstance(value, str) and len(value) <= 10:
+        if not all(c in _BASE_DIGITS[base] for c in value):
+            # int() would also accept whitespace, sign, '_' and 0b/0o/0x
+            return NUM_ERROR
         try:
             value, mask = int(value, base), _SIZE_MASK[base]
             if value >= 0:
@@ -77,7 +81,12 @@ def _dec2base(value, places=None, base=16):
     if places is None:
         places = 0
     else:
-        places = int(places)
+        if places in ERROR_CODES:
+            return places
+        try:
+            places = int(places)
+        except (TypeError, ValueError):
+            return VALUE_ERROR
         if places < len(value):
             return NUM_ERROR
     return value.zfill(int(places))
